@@ -424,7 +424,8 @@ def run(rep):
         "max_depth": c.get("max_depth", 0),
         "depth_bound": depth,
         "capped_configurations": c.get("capped_configs", 0),
-        "exhaustive": True,
+        "state_capped_configurations": c.get("state_capped_configs", 0),
+        "exhaustive": c.get("state_capped_configs", 0) == 0,
         "exhaustive_note": "all event sequences up to depth_bound per configuration (state dedup on parameter values and pending multisets)",
         "grid_evaluations": c.get("evaluations", 0),
         "evaluations": c.get("transitions", 0) + c.get("evaluations", 0),
